@@ -297,6 +297,39 @@ def run(chk, prog):
                    'character in story text yields an invalid JSON line' % sorted(repr(c) for c in chars if ord(c) < 0x20),
                    f.loc(0))
 
+        # a \\uXXXX escape has four hex digits: only code points below U+10000 may be written that way
+        nhex = 0
+        for g in prog.with_closures(f):
+            cg = cfg(g)
+            small = []      # blocks entered only when `x < K` (K <= 0x10000) held
+            for bb, si, s in g.stmts():
+                if s['k'] == 'assign' and s['rv']['k'] == 'binop' and s['rv']['op'] in ('Lt', 'Le') and 'p' not in s['pl']:
+                    b = s['rv']['b']
+                    if not (b['k'] == 'const' and 'int' in b and b['int'] + (1 if s['rv']['op'] == 'Le' else 0) <= 0x10000):
+                        continue
+                    t = g.blocks[bb]['term']
+                    if t and t['k'] == 'switch' and t['d'].get('pl', {}).get('l') == s['pl']['l'] and 'p' not in t['d']['pl']:
+                        false_t = [x for v, x in t['ts'] if v == 0]
+                        true_t = t['else'] if false_t else None
+                        if true_t is not None and true_t not in false_t and cg.pred[true_t] == [bb]:
+                            small.append(true_t)
+            for bb, t in g.calls():
+                if callee_short(t) not in ('Argument::new_lower_hex', 'Argument::new_upper_hex') or not t['args']:
+                    continue
+                nhex += 1
+                a = t['args'][0]
+                ty = g.local_ty(a['pl']['l']) if a.get('k') in ('copy', 'move') and 'p' not in a['pl'] else ''
+                narrow = ty.lstrip('&').strip() in ('u16', 'u8')
+                ok = narrow or any(cg.dominates(x, bb) for x in small)
+                chk.decide(RB, chk.key(RB, 'hex-escape-fits-four-digits', '#%d' % nhex), ok,
+                           'the hex escape is written only for code points that fit four digits',
+                           'escape_json_string writes a \\\\u hex escape for a value of type %s on a path where the code '
+                           'point is not known to be below U+10000 (no dominating `< K`, K <= 0x10000): a character '
+                           'outside the Basic Multilingual Plane comes out with five or six hex digits, which a JSON '
+                           'reader takes as another character followed by a digit - the shown text differs from the '
+                           'library\'s' % (ty or '?'), g.loc(bb))
+        chk.floor(RB, 'hex escapes in escape_json_string', nhex, 1)
+
     # ---- (c) compile path
     tool = [f for f in prog.fns.values() if f.crate == 'rinklecate' and '::compiler_tool::' in f.p and f.kind != 'closure']
     mainf = [f for f in prog.fns.values() if f.crate == 'rinklecate' and f.short in ('rinklecate::main', 'rinklecate::run')]
